@@ -261,7 +261,7 @@ def run(rep, tier, seed):
         jobs += [(small[i::64], 'plain') for i in range(64)]
     rn = fans = 0
     fails = []
-    for n, f, fl in pmap(_work, jobs, fresh=True):
+    for n, f, fl in dyn.pmap_w('work', _work, jobs):
         rn += n
         fans += f
         fails.extend(fl)
@@ -307,6 +307,8 @@ def run(rep, tier, seed):
             g = {'kind': 'fan_history', 'which': f['which'], 'history': hist, 'message': f['message'] + ' [only after the earlier '
                  f'queries of its job ({len(hist) - 1} fans): the answer depends on the order of earlier ray queries]',
                  'sig': dict(f['sig'], history_dependent=True), 'simplicity': f.get('simplicity', 0)}
+            if f.get('wjob') is not None:
+                g['wjob'] = f['wjob']
             fixed.append(g)
         else:
             fixed.append(f)
@@ -326,3 +328,6 @@ def run(rep, tier, seed):
         rule='case = one (area, origin) fan with every ray checked, or one cache history; non-trivial = all fans except '
         'the 1x1 areas',
     )
+
+
+WORKERS = {'work': _work}
